@@ -37,7 +37,9 @@ Served(l, p, cred) == Requirement(l, p) = "require_and_verify_peer_cert" /\ cred
 \* announced a certificate and serves with exactly that one.
 \* "chain": announce A, serve with key pair B and append A's (public) certificate to the chain presented.
 \* What counts is the key the peer proves possession of: the leaf's.
-ImpostorModes == {"othercert", "nocert", "chain"}
+\* "replay": announce a fresh certificate, serve with the key pair an earlier, honest launch from the same client
+\* configuration announced and used -- what an earlier launch was trusted with does not carry over.
+ImpostorModes == {"othercert", "nocert", "chain", "replay"}
 Announced(m) == IF m = "nocert" THEN "none" ELSE "A"
 Presented(m) == IF m = "nocert" THEN "plaintext" ELSE "B"      \* the leaf key
 HostUses(announced, presented) == announced # "none" /\ announced = presented
